@@ -101,6 +101,21 @@ inline void sinkPacket(Sink& s, const ASAM::CMP::Packet& p)
     s.bytes("packet.rawHeaders", hdr, sizeof hdr);
 }
 
+// frames reach the decoder at every alignment (a CMP frame behind a 14-byte Ethernet header is not 8-byte aligned): the frame
+// is copied to offset `misalign` of a fresh buffer and decoded from there
+struct Misaligned
+{
+    std::vector<uint8_t> buf;
+    const uint8_t* data;
+    Misaligned(const uint8_t* p, size_t n, size_t misalign)
+        : buf(n + misalign + 1)
+    {
+        if (n)
+            memcpy(buf.data() + misalign, p, n);
+        data = buf.data() + misalign;
+    }
+};
+
 struct State
 {
     ASAM::CMP::Encoder enc;
@@ -203,8 +218,9 @@ inline const char* genEncodeDecode(State& st, Rng& r, Sink& s, bool& padded, int
     {
         std::vector<std::shared_ptr<Packet>> got;
         {
+            Misaligned mf(f.data(), f.size(), r.below(8));
             InLib g;
-            got = st.dec.decode(f.data(), f.size());
+            got = st.dec.decode(mf.data, f.size());
         }
         for (auto& p : got)
             if (p)
@@ -256,8 +272,9 @@ inline const char* genDecode(State& st, Rng& r, Sink& s, int& sub)
     {
         std::vector<std::shared_ptr<Packet>> got;
         {
+            Misaligned mf(f.data(), f.size(), r.below(8));
             InLib g;
-            got = st.dec.decode(f.data(), f.size());
+            got = st.dec.decode(mf.data, f.size());
         }
         s.value("decode.packetCount", got.size());
         for (auto& p : got)
@@ -323,8 +340,9 @@ inline const char* genTecmp(State& st, Rng& r, Sink& s)
         mutateFrame(f, r);
     std::vector<std::shared_ptr<Packet>> got;
     {
+        Misaligned mf(f.data(), f.size(), r.below(8));
         InLib g;
-        got = r.chance(1, 2) ? TECMP::Decoder::Decode(f.data(), f.size()) : st.dec.decode(f.data(), f.size());
+        got = r.chance(1, 2) ? TECMP::Decoder::Decode(mf.data, f.size()) : st.dec.decode(mf.data, f.size());
     }
     s.value("tecmp.packetCount", got.size());
     for (auto& p : got)
@@ -425,8 +443,9 @@ inline const char* genBigReassembly(State& st, Rng& r, Sink& s)
         wire::Bytes f = buildFrame(1, dev, wire::MT_DATA, 1, seq++, {m});
         std::vector<std::shared_ptr<Packet>> got;
         {
+            Misaligned mf(f.data(), f.size(), r.below(8));
             InLib g;
-            got = st.dec.decode(f.data(), f.size());
+            got = st.dec.decode(mf.data, f.size());
         }
         for (auto& p : got)
             if (p)
